@@ -24,9 +24,8 @@ CONSTANTS TraceFile
 Trace == ndJsonDeserialize(TraceFile)
 
 VARIABLES l, linked, declared,
-          latch      \* "eof" once a Read has reported the end of the stream: from then on WriteTo at the end reports
-                     \* it too (wrapped with the state name), otherwise WriteTo at the end says (0, nil); cleared
-                     \* by Reset - "Reset makes the object indistinguishable from a new one" (C17)
+          latch      \* "eof" once a Read has reported the end of the stream: only then may WriteTo at the end
+                     \* report an error as well (the code wraps the latched end-of-stream error); cleared by Reset
 
 tvars == <<rvars, l, linked, declared, latch>>
 
@@ -53,7 +52,9 @@ TrCall ==
              [] r.op = "writeto" ->
                   \/ WriteTo /\ r.n = total - delivered /\ r.err = "none"
                   \/ WriteToLate /\ r.err \notin {"none", "eof"}
-                  \/ WriteToAtEnd /\ r.n = 0 /\ r.cons = 0 /\ r.err = (IF latch = "eof" THEN "eof-wrapped" ELSE "none")
+                  \* what WriteTo says at the end is (0, nil) or the end-of-stream error latched by an earlier Read: the
+                  \* properties do not choose; "Reset = new object" is checked by comparison with a new object (C17)
+                  \/ WriteToAtEnd /\ r.n = 0 /\ r.cons = 0 /\ (r.err # "none" => latch = "eof")
                   \/ InError /\ r.n = 0 /\ r.err \notin {"none", "eof"}
              [] r.op = "size" ->
                   /\ UNCHANGED rvars
